@@ -46,7 +46,7 @@ def source(draw, idx):
         twin['customs'] = {c: draw(st.sampled_from(['WIRE', 'ACH-OUT', 'alice', 'bob', ''])) for c in twin['customs']}
         twin['loc'] = draw(st.sampled_from(['', 'WA', 'NY', base['loc']]))
         rows.insert(draw(st.integers(0, len(rows))), twin)
-    return {'layout': lay, 'rows': rows, 'state': draw(st.sampled_from(['ok', 'ok', 'ok', 'ok', 'ok', 'ok', 'missing', 'garbage', 'directory', 'late_garbage']))}
+    return {'layout': lay, 'rows': rows, 'path_style': draw(st.sampled_from(['plain', 'plain', 'plain', 'dot_slash', 'absolute', 'hidden_dir', 'parent'])), 'state': draw(st.sampled_from(['ok', 'ok', 'ok', 'ok', 'ok', 'ok', 'missing', 'garbage', 'directory', 'late_garbage']))}
 
 
 @st.composite
@@ -156,7 +156,12 @@ def materialise(b, bd, drop_source=None, mutate_source=None):
             case = {'layout': s['layout'], 'rows': s['rows'][:-1]}
         text, src, expected, _ = C05.build(case)
         rel = f'data/src{i}.csv'
-        src = dict(src, file=rel)
+        # the `file:` setting as users write it: relative to the budget folder, with a leading ./, absolute, in a dot-directory, or through ../
+        ps = s.get('path_style', 'plain')
+        if ps == 'hidden_dir':
+            rel = f'.statements/src{i}.csv'
+        setting = {'dot_slash': './' + rel, 'absolute': bd.path(rel), 'parent': '../' + os.path.basename(bd.root.rstrip('/')) + '/' + rel}.get(ps, rel)
+        src = dict(src, file=setting)
         state = s['state'] if drop_source != i else 'missing'
         if state == 'ok':
             bd.write(rel, text)
